@@ -20,7 +20,7 @@ use crate::security::framer::encoder::ZmtpFrameEncoder;
 use crate::security::framer::{ISecureFramer, NullFramer};
 use crate::socket::connection_iface::ISocketConnection;
 use crate::socket::options::ZmtpEngineConfig;
-use crate::socket::patterns::ready_pipe_queue::{ReadyPipeQueue, ReadyPipeSender};
+use crate::socket::patterns::ready_pipe_queue::{PipeMessageSender, ReadyPipeQueue, ReadyPipeSender};
 use crate::socket::patterns::{LoadBalancer, OutgoingMessageOrchestrator, SubscriptionTrie};
 
 // ---------------------------------------------------------------------------------------------
@@ -437,6 +437,62 @@ impl<T: Send + 'static> RpqSender<T> {
 pub enum RpqTrySendError<T> {
   Full(T),
   Closed(T),
+}
+
+/// The three sender kinds the sockets layer on top of `ReadyPipeSender` (PULL/REQ/REP/DEALER,
+/// SUB, ROUTER ingress).
+#[derive(Clone, Copy, Debug, PartialEq, Eq, Hash)]
+pub enum PipeKind {
+  DirectAnonymous,
+  FilteredAnonymous,
+  DirectAddressed,
+}
+
+pub struct RpqMsgSender(PipeMessageSender);
+
+impl Rpq<FrameBatch> {
+  /// Registers a pipe and wraps its sender the way the socket of that kind does. For
+  /// `FilteredAnonymous` the filter is a fresh trie subscribed to `subscriptions`.
+  pub fn register_pipe_kind(
+    &self,
+    pipe_id: usize,
+    capacity: usize,
+    drain_delta: usize,
+    kind: PipeKind,
+    subscriptions: &[&[u8]],
+  ) -> RpqMsgSender {
+    let sender = self.0.register_pipe(pipe_id, capacity, drain_delta);
+    RpqMsgSender(match kind {
+      PipeKind::DirectAnonymous => PipeMessageSender::DirectAnonymous(sender),
+      PipeKind::DirectAddressed => PipeMessageSender::DirectAddressed { sender },
+      PipeKind::FilteredAnonymous => {
+        let trie = Arc::new(SubscriptionTrie::new());
+        for t in subscriptions {
+          trie.subscribe(t);
+        }
+        PipeMessageSender::FilteredAnonymous { sender, trie }
+      }
+    })
+  }
+}
+
+impl RpqMsgSender {
+  pub async fn send(&self, batch: FrameBatch) -> Result<(), ZmqError> {
+    self.0.send(batch).await
+  }
+  pub fn try_send(&self, batch: FrameBatch) -> Result<(), RpqTrySendError<FrameBatch>> {
+    match self.0.try_send_sync(batch) {
+      Ok(()) => Ok(()),
+      Err(fibre::TrySendError::Full(t)) => Err(RpqTrySendError::Full(t)),
+      Err(fibre::TrySendError::Closed(t)) => Err(RpqTrySendError::Closed(t)),
+      Err(fibre::TrySendError::Sent(t)) => Err(RpqTrySendError::Closed(t)),
+    }
+  }
+  /// Returns the frame count consumed (sent + discarded by the filter); items that did not fit
+  /// stay at the front of `items`.
+  pub fn try_send_batch(&self, items: &mut VecDeque<FrameBatch>) -> usize {
+    self.0.try_send_batch(items)
+  }
 }
 
 // ---------------------------------------------------------------------------------------------
